@@ -131,6 +131,9 @@ def make_case(rng, measure):
         sigma = gen.spd(rng, n_cond, 30.0)
     else:
         sigma = None
+    if sigma is not None:
+        # overall magnitude of the noise covariance (physical units): the whitened measures do not depend on it
+        sigma = sigma * 10.0 ** float(gen.pick(rng, [-12, -9, -4, 0, 0, 0, 3, 6]))
     return dict(measure=measure, n_cond=n_cond, v1=v1, v2=v2, kind=kind, kind2=kind2, sk=sk, sigma=sigma)
 
 
